@@ -108,6 +108,29 @@ def check_case(case, ctx):
         st, d = call(ck.Dataset.from_raw_list, [[set(b) for b in r] for r in ds0], "raw")
     elif via == "elements":
         st, d = call(lambda: ck.Dataset([ck.Ranking([{ck.Element(e) for e in b} for b in r]) for r in ds0]))
+    elif gen.digest(ds0)[1] in "0123":
+        # the caller keeps the list it gave to the constructor and goes on using it: the dataset's views must keep agreeing
+        # with the dataset's own rankings
+        caller = [libx.mk_ranking(r) for r in ds0]
+        st, d = call(ck.Dataset, caller)
+        if st == "ok":
+            ctx.count("callers_list_changed_after_construction")
+            uni0 = ref.universe(ds0)
+            fresh_name = 10 ** 6 + 7 if ref.expected_type_is_int(ds0) else "a_new_name"
+            how = rng.choice(["append", "pop", "replace", "clear"])
+            if how == "append":
+                caller.append(ck.Ranking([{ck.Element(fresh_name)}, {ck.Element(uni0[0])}]))
+            elif how == "pop":
+                caller.pop(rng.randrange(len(caller)))
+            elif how == "replace":
+                caller[rng.randrange(len(caller))] = ck.Ranking([{ck.Element(fresh_name)}])
+            else:
+                caller.clear()
+            probs = common.dataset_problems(d)
+            if probs:
+                ctx.violation("C16/dataset-inconsistent-after-the-caller-changed-its-own-list",
+                              f"Dataset(lst), then lst changed by the caller ({how}): {probs[0][1]}", {**case, "how": how})
+                return
     else:
         st, d = call(libx.mk_dataset, ds0)
     if st == "exc":
@@ -361,6 +384,7 @@ def reach(counters, tier, info):
                             ("mutator following a mutator", "mutator_after_mutator", 500 * k),
                             ("derived constructors on an already-mutated dataset", "derived_after_mutation", 500 * k),
                             ("derived datasets mutated (the source must not notice)", "derived_dataset_mutated", 60 * k),
+                            ("datasets whose caller changed, afterwards, the list it had given", "callers_list_changed_after_construction", 100 * k),
                             ("invariant evaluations (icontract)", "invariant_evaluations", 50000 * k)]:
         v = counters.get(key, 0)
         out.append({"name": name, "observed": v, "required": need, "ok": v >= need})
